@@ -131,8 +131,13 @@ def tree_twin_guards(ctx, run, rule='R12.2'):
                 cs = [c for c in q.conds if c[0][0] == 'call']
                 if cs and is_call(cs[0][0], 'Value::is_array') and cs[0][2] is True and len(cs) > 1 and is_call(cs[1][0], 'Value::is_scalar') and cs[1][2] is True:
                     first = q
-        (run.proved if first is not None else run.violation)(rule, b.path, 'special-case', 'left.is_array() && right.is_scalar() is tested first' if first is not None else
-                                                              'the array-contains-scalar special case is not the first test', f'{b.file}:{b.line}')
+        if first is not None:
+            run.proved(rule, b.path, 'special-case', 'left.is_array() && right.is_scalar() is tested first', f'{b.file}:{b.line}')
+        elif not any(called(callee_name(t_), 'Value::is_array') for _, t_ in b.calls()):
+            run.undecided(rule, b.path, 'special-case', 'this function does not test left.is_array() && right.is_scalar() through the helper methods (a match on the pair of values?): '
+                          'whether the array-contains-scalar case is handled first, and only at the top level, is not decided', f'{b.file}:{b.line}')
+        else:
+            run.violation(rule, b.path, 'special-case', 'the array-contains-scalar special case is not the first test', f'{b.file}:{b.line}')
 
 
 def check(ctx, run):
@@ -162,7 +167,8 @@ def check(ctx, run):
         run.proved('R12.1', 'functions::contains_jsonb', 'raw-compare', 'the walker compares scalar payloads only through scalar_eq')
     b = f.bodies.get('functions::scalar_eq')
     if b is None:
-        run.violation('R12.1', 'functions::scalar_eq', 'numbers', 'the scalar equality helper is missing: numbers cannot be compared by value')
+        run.undecided('R12.1', 'functions::scalar_eq', 'numbers', 'the scalar equality helper was not found under this name (renamed or moved into a method?): how the walker compares '
+                      'number payloads is not decided here (a direct comparison of payload bytes in the walker is still reported by the raw-compare clause)')
     else:
         ps, _ = explore(b)
         num_ok = False
@@ -184,7 +190,10 @@ def check(ctx, run):
                                                'two decodable numbers are not compared as numbers in scalar_eq', f'{b.file}:{b.line}')
         import re as _re
         users = sorted({_re.sub(r'(::\{closure#\d+\})+$', '', c) for c, tg in ctx.cg.edges.items() if 'functions::scalar_eq' in tg})
-        ok = {'functions::contains_jsonb', 'functions::array_contains'} <= set(users)
+        need = {'functions::contains_jsonb'} | ({'functions::array_contains'} if 'functions::array_contains' in f.bodies else set())
+        ok = need <= set(users)
+        if not ok and 'functions::contains_jsonb' in users and 'functions::array_contains' not in f.bodies:
+            ok = True
         (run.proved if ok else run.violation)('R12.1', 'functions::scalar_eq', 'used-by', f'used by {users}' if ok else f'scalar_eq is only used by {users}: some scalar comparison of the walker bypasses it')
     numcodec.r18_4(ctx, run, rule='R12.1/R18.4')
     tree_twin_guards(ctx, run, 'R12.2')
@@ -217,11 +226,20 @@ def check(ctx, run):
         # kinds differ -> false ; array/scalar special case first ; object sizes
         first_special = any(q.blocks and q.blocks[0] == 0 and any(called(e[1], 'functions::array_contains') for e in q.calls()) and
                             sum(1 for c in q.conds if c[0][0] == 'bin' and c[0][1] == 'Eq' and c[2] is True) >= 2 for q in paths)
-        (run.proved if first_special else run.violation)('R12.2', b.path, 'special-case', 'array ⊇ scalar handled first through array_contains' if first_special else
-                                                          'the array-contains-scalar special case is missing from the byte implementation', f'{b.file}:{b.line}')
+        if first_special:
+            run.proved('R12.2', b.path, 'special-case', 'array ⊇ scalar handled first through array_contains', f'{b.file}:{b.line}')
+        elif 'functions::array_contains' not in f.bodies:
+            run.undecided('R12.2', b.path, 'special-case', 'the helper array_contains was not found under this name: whether the array-contains-scalar special case is handled first is not decided', f'{b.file}:{b.line}')
+        else:
+            run.violation('R12.2', b.path, 'special-case', 'the array-contains-scalar special case is missing from the byte implementation', f'{b.file}:{b.line}')
         kinds_differ = any(q.end[0] == 'return' and agg_variant(q.ret) and q.ret[1][2] == 'Ok' and q.ret[2][0][0] == 'const' and q.ret[2][0][1] is False and
                            any(c[0][0] == 'bin' and c[0][1] == 'Ne' and c[2] is True for c in q.conds) for q in paths)
-        (run.proved if kinds_differ else run.violation)('R12.2', b.path, 'kinds-differ', 'different kinds -> false' if kinds_differ else 'differing kinds are not rejected', f'{b.file}:{b.line}')
+        if kinds_differ:
+            run.proved('R12.2', b.path, 'kinds-differ', 'different kinds -> false', f'{b.file}:{b.line}')
+        elif not any(c[0][0] == 'bin' and c[0][1] in ('Ne', 'Eq') for q in paths for c in q.conds):
+            run.undecided('R12.2', b.path, 'kinds-differ', 'no comparison of the two header kinds was found in this function (done in a helper or a struct method?): not decided', f'{b.file}:{b.line}')
+        else:
+            run.violation('R12.2', b.path, 'kinds-differ', 'differing kinds are not rejected', f'{b.file}:{b.line}')
     # arrays: containment ignores multiplicity, so no answer may be derived from comparing the two element counts
     if b is not None:
         def is_count(t_):
